@@ -329,7 +329,16 @@ func runC15Hostile(ctx *Ctx) *Result {
 // return to an earlier one), reconciled after every edit: revision names, hash labels and collision counts are
 // functions of the template bytes, so rare shapes (a hash label that parses as a number, two templates whose
 // names collide) only turn up when many different templates pass through the history code.
-func runC15Churn(ctx *Ctx) *Result {
+func runC15Churn(ctx *Ctx) *Result { return churnFamily("C15")(ctx) }
+
+// churnFamily: the template-churn workload under the panic monitor (C15) or, in addition, under the
+// revision-store monitor (C08: histories in which hash labels parse as numbers take EqualRevision's
+// short-cut, which the four fixed templates of the scenario family never do).
+func churnFamily(prop string) func(ctx *Ctx) *Result {
+	return func(ctx *Ctx) *Result { return runChurn(ctx, prop) }
+}
+
+func runChurn(ctx *Ctx, prop string) *Result {
 	res := newResult()
 	srv := simapi.New()
 	w := world.New(srv)
@@ -344,12 +353,17 @@ func runC15Churn(ctx *Ctx) *Result {
 		set := world.NewSet(world.SetOpts{Name: "web", Replicas: int32(r.Intn(2)), Partition: &p, HistLimit: []int32{0, 2, 10, 100}[r.Intn(4)]})
 		w.Srv.Seed(simapi.Sets, set)
 		w.DeliverAll()
-		var images []string
+		var images, numericImgs []string
 		numeric := map[string]bool{}
 		for k := 0; k < 40; k++ {
 			img := fmt.Sprintf("img:%d-%d", ctx.caseSeed(i)%100000, k)
 			if k%7 == 6 {
 				img = images[r.Intn(len(images))] // back to an earlier template
+				if len(numericImgs) > 0 && r.Intn(2) == 0 {
+					// ... preferably to one whose revision carries an all-digit hash label
+					img = numericImgs[r.Intn(len(numericImgs))]
+					res.Stats["churn_returns_to_a_template_with_all_digit_hash"]++
+				}
 				res.Stats["churn_returns_to_an_earlier_template"]++
 			}
 			images = append(images, img)
@@ -360,17 +374,32 @@ func runC15Churn(ctx *Ctx) *Result {
 			res.Stats["churn_reconciles"]++
 			if rec.Panic != nil {
 				res.Stats["panics"]++
-				if reported < 3 {
+				if reported < 3 && prop == "C15" {
 					reported++
 					res.Violations = append(res.Violations, Witness{Prop: "C15", Clause: "reconcile-panicked", Msg: fmt.Sprintf("reconcile panicked after template edit #%d of a long history (image %s): %v", k, img, rec.Panic),
 						Family: "c15churn", Case: i, Seed: ctx.Seed, Tier: ctx.Tier, Detail: j{"images": images, "stack": rec.Stack}})
 				}
+				if prop != "C15" {
+					res.Inconclusive = append(res.Inconclusive, fmt.Sprintf("churn case %d: a reconcile panicked (C15's business)", i))
+				}
 				break
+			}
+			if prop == "C08" {
+				for _, x := range mon.CheckC08(mon.NewView(rec), mon.Stats(res.Stats)) {
+					if reported < 3 {
+						reported++
+						res.Violations = append(res.Violations, Witness{Prop: "C08", Clause: x.Clause, Msg: fmt.Sprintf("template edit #%d of a long history (image %s): %s", k, img, x.Msg),
+							Family: "c08churn", Case: i, Seed: ctx.Seed, Tier: ctx.Tier, Detail: j{"images": images}})
+					}
+				}
 			}
 			for _, rev := range world.RevisionsOf(w.Srv.Snap(), world.NS) {
 				if h := rev.Labels["controller.kubernetes.io/hash"]; h != "" && strings.Trim(h, "0123456789") == "" && !numeric[rev.Name] {
 					numeric[rev.Name] = true
 					res.Stats["churn_revisions_with_all_digit_hash_label"]++
+					if cur := w.GetSet("web"); cur != nil && cur.Status.UpdateRevision == rev.Name {
+						numericImgs = append(numericImgs, img)
+					}
 				}
 			}
 			for _, n := range w.PodNames() {
